@@ -17,6 +17,7 @@ def Inv (P : Prog) (tm : Recs) (st : State) : Prop := HeapOK P st.heap ∧ LogOK
 def Benign : Fail → Prop
   | .unbound => True
   | .timeout => True
+  | .exc _ => True
   | _ => False
 
 def Post {α : Type} (P : Prog) (tm : Recs) (st : State) (Q : State → α → Prop) : Except Fail α × State → Prop
@@ -68,6 +69,39 @@ theorem sat_mono {α : Type} {st : State} {m : M α} {Q Q' : State → α → Pr
     cases r with
     | error e => exact p
     | ok a => exact ⟨p.1, p.2.1, hq _ _ p.2.1 p.2.2⟩
+
+/-- an expression evaluated inside a statement: its Python-level failures become the statement's outcome -/
+theorem sat_liftE {α : Type} {st : State} {σ : Store} {m : M α} {f : α → M Ctl} {Q : State → α → Prop}
+    {R : State → Ctl → Prop}
+    (h1 : Sat P tm st m Q) (h2 : ∀ st1 a, Ext st.heap st1.heap → Q st1 a → Sat P tm st1 (f a) R)
+    (h3 : ∀ st1 e, Ext st.heap st1.heap → Benign e → R st1 (.exc e σ)) :
+    Sat P tm st (liftE σ m f) R := by
+  intro hi
+  have p1 := h1 hi
+  unfold liftE
+  cases hm : m st with
+  | mk r st1 =>
+    rw [hm] at p1
+    cases r with
+    | error e =>
+      obtain ⟨hi1, he1, hb⟩ := p1
+      cases e with
+      | timeout => exact ⟨hi1, he1, trivial⟩
+      | stuck => exact absurd hb (by simp [Benign])
+      | typeError => exact absurd hb (by simp [Benign])
+      | attrError => exact absurd hb (by simp [Benign])
+      | unbound => exact ⟨hi1, he1, h3 st1 _ he1 trivial⟩
+      | exc k => exact ⟨hi1, he1, h3 st1 _ he1 trivial⟩
+    | ok a =>
+      obtain ⟨hi1, he1, hq⟩ := p1
+      have p2 := h2 st1 a he1 hq hi1
+      simp only
+      cases hf : f a st1 with
+      | mk r2 st2 =>
+        rw [hf] at p2
+        cases r2 with
+        | error e => exact ⟨p2.1, he1.trans p2.2.1, p2.2.2⟩
+        | ok b => exact ⟨p2.1, he1.trans p2.2.1, p2.2.2⟩
 
 /-! ## Primitive operations -/
 
